@@ -539,15 +539,8 @@ func overrideRemapExprHandles(kind ExpressionKind, handleMap []ExpressionHandle)
 		remapPtr(s.ArrayIndex)
 		remapPtr(s.DepthRef)
 		remapPtr(s.Offset)
-		// Remap SampleLevel handles
-		switch lv := s.Level.(type) {
-		case SampleLevelExact:
-			lv.Level = remap(lv.Level)
-			s.Level = lv
-		case SampleLevelBias:
-			lv.Bias = remap(lv.Bias)
-			s.Level = lv
-		}
+		// Remap SampleLevel handles (Exact, Bias, Gradient)
+		s.Level = remapSampleLevel(s.Level, remap)
 		return s
 	case ExprImageLoad:
 		l := k
@@ -589,6 +582,8 @@ func overrideRemapExprHandles(kind ExpressionKind, handleMap []ExpressionHandle)
 		return ExprRelational{Fun: k.Fun, Argument: remap(k.Argument)}
 	case ExprArrayLength:
 		return ExprArrayLength{Array: remap(k.Array)}
+	case ExprRayQueryGetIntersection:
+		return ExprRayQueryGetIntersection{Query: remap(k.Query), Committed: k.Committed}
 	}
 	// Literal, ExprConstant, ExprGlobalVariable, ExprLocalVariable, ExprFunctionArgument,
 	// ExprCallResult, ExprAtomicResult, etc. — no sub-expression handles to remap
@@ -668,6 +663,37 @@ func remapBlockHandles(block Block, handleMap []ExpressionHandle) {
 				*exchange.Compare = remap(*exchange.Compare)
 				k.Fun = exchange
 			}
+			block[i].Kind = k
+		case StmtImageAtomic:
+			k.Image = remap(k.Image)
+			k.Coordinate = remap(k.Coordinate)
+			if k.ArrayIndex != nil {
+				h := remap(*k.ArrayIndex)
+				k.ArrayIndex = &h
+			}
+			k.Value = remap(k.Value)
+			// Remap Compare handle inside AtomicExchange
+			if exchange, ok := k.Fun.(AtomicExchange); ok && exchange.Compare != nil {
+				h := remap(*exchange.Compare)
+				exchange.Compare = &h
+				k.Fun = exchange
+			}
+			block[i].Kind = k
+		case StmtSubgroupBallot:
+			k.Result = remap(k.Result)
+			if k.Predicate != nil {
+				h := remap(*k.Predicate)
+				k.Predicate = &h
+			}
+			block[i].Kind = k
+		case StmtSubgroupCollectiveOperation:
+			k.Argument = remap(k.Argument)
+			k.Result = remap(k.Result)
+			block[i].Kind = k
+		case StmtSubgroupGather:
+			k.Mode = remapGatherMode(k.Mode, remap)
+			k.Argument = remap(k.Argument)
+			k.Result = remap(k.Result)
 			block[i].Kind = k
 		case StmtBlock:
 			remapBlockHandles(k.Block, handleMap)
